@@ -157,6 +157,9 @@ Definition spec_total_size (p : packet) (r : resolution) : N :=
 Inductive rule :=
 | RNotClientPacket       (* CONNACK / SUBACK / UNSUBACK / PINGRESP are never sent by a client *)
 | RStringLen             (* 1.5.4 UTF-8 string fields at most 65535 bytes *)
+| RStringNul             (* [MQTT-1.5.4-2] no null character in a UTF-8 string field other than a topic: user property names and
+                            values, reason string, content type, server reference, authentication method, client id, user name
+                            (topic names / filters: RTopicNul, RWillTopic) *)
 | RBinaryLen             (* 1.5.6 binary fields at most 65535 bytes *)
 | RUserPropertyValueLen  (* 1.5.7 value of a user property at most 65535 bytes *)
 | RPacketTooBig          (* 2.1.4 Remaining Length at most 268435455 *)
@@ -187,7 +190,7 @@ Inductive rule :=
 
 Definition rule_eqb (a b : rule) : bool :=
   match a, b with
-  | RNotClientPacket, RNotClientPacket | RStringLen, RStringLen | RBinaryLen, RBinaryLen
+  | RNotClientPacket, RNotClientPacket | RStringLen, RStringLen | RStringNul, RStringNul | RBinaryLen, RBinaryLen
   | RUserPropertyValueLen, RUserPropertyValueLen | RPacketTooBig, RPacketTooBig
   | RMaximumPacketSize, RMaximumPacketSize | RPacketIdZero, RPacketIdZero | RTopicName, RTopicName
   | RTopicNul, RTopicNul | RTopicAliasZero, RTopicAliasZero | RMaximumQos, RMaximumQos
@@ -208,11 +211,14 @@ Definition req (rl : rule) (c : bool) : list rule := if c then [] else [rl].
 
 Definition str_ok (s : bytes) : bool := len s <=? 65535.
 Definition ostr_ok (o : option bytes) : bool := match o with Some s => str_ok s | None => true end.
+(* [MQTT-1.5.4-2]; only for UTF-8 STRING fields (binary data may contain any byte) *)
+Definition onul_ok (o : option bytes) : bool := match o with Some s => no_nul s | None => true end.
 
 Definition ups_rules (o : option (list user_property)) : list rule :=
   match o with
   | Some l => req RStringLen (forallb (fun p => str_ok (up_name p)) l) ++
-              req RUserPropertyValueLen (forallb (fun p => str_ok (up_value p)) l)
+              req RUserPropertyValueLen (forallb (fun p => str_ok (up_value p)) l) ++
+              req RStringNul (forallb (fun p => no_nul (up_name p) && no_nul (up_value p)) l)
   | None => []
   end.
 
@@ -229,6 +235,7 @@ Definition publish_rules (st : settings) (r : resolution) (p : publish) : list r
   req RResponseTopic (match pub_response_topic p with Some t => spec_topic t | None => true end) ++
   req RTopicNul (match pub_response_topic p with Some t => no_nul t | None => true end) ++
   req RStringLen (ostr_ok (pub_content_type p)) ++
+  req RStringNul (onul_ok (pub_content_type p)) ++
   req RBinaryLen (ostr_ok (pub_correlation p)) ++
   ups_rules (pub_up p) ++
   req RPacketIdZero ((pub_qos p =? 0) || negb (pub_pid p =? 0)) ++
@@ -265,6 +272,7 @@ Definition unsubscribe_rules (u : unsubscribe) : list rule :=
 
 Definition disconnect_rules (co : connect_opts) (d : disconnect) : list rule :=
   req RStringLen (ostr_ok (d_reason d) && ostr_ok (d_server_ref d)) ++
+  req RStringNul (onul_ok (d_reason d) && onul_ok (d_server_ref d)) ++
   ups_rules (d_up d) ++
   req RSessionExpiry
     (match d_sei d with
@@ -273,16 +281,19 @@ Definition disconnect_rules (co : connect_opts) (d : disconnect) : list rule :=
      end).
 
 Definition ack_rules (a : ack) : list rule :=
-  req RStringLen (ostr_ok (ack_reason a)) ++ ups_rules (ack_up a) ++ req RPacketIdZero (negb (ack_pid a =? 0)).
+  req RStringLen (ostr_ok (ack_reason a)) ++ req RStringNul (onul_ok (ack_reason a)) ++
+  ups_rules (ack_up a) ++ req RPacketIdZero (negb (ack_pid a =? 0)).
 
 Definition auth_rules (a : auth) : list rule :=
   req RAuthMethodMissing (match au_method a with Some _ => true | None => false end) ++
   req RStringLen (ostr_ok (au_method a) && ostr_ok (au_reason a)) ++
+  req RStringNul (onul_ok (au_method a) && onul_ok (au_reason a)) ++
   req RBinaryLen (ostr_ok (au_data a)) ++
   ups_rules (au_up a).
 
 Definition connect_rules (c : connect) : list rule :=
   req RStringLen (ostr_ok (con_client_id c) && ostr_ok (con_username c) && ostr_ok (con_auth_method c)) ++
+  req RStringNul (onul_ok (con_client_id c) && onul_ok (con_username c) && onul_ok (con_auth_method c)) ++
   req RBinaryLen (ostr_ok (con_password c) && ostr_ok (con_auth_data c)) ++
   req RReceiveMaximumZero (match con_receive_max c with Some v => negb (v =? 0) | None => true end) ++
   req RMaximumPacketSizeZero (match con_max_packet c with Some v => negb (v =? 0) | None => true end) ++
@@ -292,6 +303,7 @@ Definition connect_rules (c : connect) : list rule :=
   | Some w =>
       req RWillTopic (spec_topic (pub_topic w) && no_nul (pub_topic w)) ++
       req RStringLen (ostr_ok (pub_content_type w) && ostr_ok (pub_response_topic w)) ++
+      req RStringNul (onul_ok (pub_content_type w) && onul_ok (pub_response_topic w)) ++
       req RBinaryLen (ostr_ok (pub_correlation w) && ostr_ok (pub_payload w)) ++
       ups_rules (pub_up w)
   | None => []
